@@ -554,3 +554,51 @@ Definition duo_ok (ev : env) (a : peer) (oa oc : obs) : bool :=
 
 Inductive proc_kind := PSigning | PKeygen | PResharing.
 Definition retryable_of (k : proc_kind) : bool := match k with PSigning => true | _ => false end.
+
+(* ---------------------------------------------------------------------------------------------- *)
+(* REAL signing processes (tss/ecdsa/signing, tss/frost/signing on the fixture key shares) behind the
+   Coordinator, over an in-memory network: the first attempt fails through the real code (a Broadcast of
+   a round message returns the transport's CommunicationError, a member of the subset is dead, the real
+   party blames a culprit, the real process returns SubsetError) and the SAME process object serves the
+   replacement attempt.  The relayer is judged as in every other case ([spec_ok], with the cause the
+   network injected), and in addition:
+     - every subset it announces as coordinator of the replacement attempt is a signing subset: t+1
+       distinct key holders, itself among them, nobody excluded, everybody else having answered ready
+       ([subset_ok] of C07: "a new attempt in which the culprits are removed from ... the signing subset");
+     - if it coordinates the replacement attempt and enough key holders that are alive, reachable and not
+       excluded answered ready, the attempt is a working attempt: it completes with a valid signature
+       ([sig]: 0 = the runner did not wait for it, 1 = completed / signature verifies, 2 = it did not).
+   That an attempt of live members over a valid subset completes is the correctness of tss-lib / FROST,
+   which is trusted, not modelled: the model's session is accepted for the outcome [SigValid]. *)
+
+Definition SigNotAwaited : N := 0.
+Definition SigValid : N := 1.
+Definition SigMissing : N := 2.
+
+Definition subsets_valid (ev : env) (ps : list peer) (runs : list (bool * list peer)) : bool :=
+  forallb (fun r : bool * list peer =>
+             if fst r then subset_ok (e_holders ev) (e_t ev) ps (e_self ev) (e_ready2 ev) (snd r) else true) runs.
+
+(* [live]: the key holders that are alive (real relayers of the scenario) *)
+Definition real_allows (ev : env) (live : list peer) (nfirst : nat) (o : obs) (sig : N) (a : action) : bool :=
+  match a with
+  | RetryExcluding ps =>
+      if memb (e_self ev) ps then true else
+      subsets_valid ev ps (skipn nfirst (o_runs o))
+      && (match o_inits2 o with
+          | [] => true
+          | _ :: _ =>
+              if enough (e_holders ev) (e_t ev) ps (e_unreach ev) (e_self ev)
+                        (filter (fun p => memb p live) (e_ready2 ev))
+              then negb (N.eqb sig SigMissing) else true
+          end)
+  | _ => true
+  end.
+
+Definition real_ok (ev : env) (live : list peer) (retryable : bool) (e : err) (nfirst : nat) (o : obs) (sig : N) : bool :=
+  spec_ok ev retryable e nfirst o
+  && (if negb retryable then true
+      else match recognised_kinds e with
+           | [k] => real_allows ev live nfirst o sig (action_of_kind k)
+           | _ => true
+           end).
